@@ -74,3 +74,14 @@ Theorem parse_string_returns_move dfrc p m : wf p = true -> rooks_ok p -> legal_
 Proof. intros Hwf Hr Hlc. apply (parse_move_string dfrc p Hwf Hr Hlc (proj2 (legal_moves_exact dfrc p Hwf Hr Hlc))). Qed.
 
 Print Assumptions legal_moves_exact. Print Assumptions perft_counts_rule_sequences. Print Assumptions parse_text_returns_move. Print Assumptions domain_closed.
+
+(* C01: is_legal answers exactly as the rules do *)
+Theorem is_legal_rules dfrc p m : wf p = true -> rooks_ok p -> legal_consistent dfrc (abs p) = true ->
+  is_legal p m = spec_legal (abs p) m.
+Proof.
+  intros Hwf Hr Hlc. destruct (legal_moves_exact dfrc p Hwf Hr Hlc) as [_ Hmem].
+  unfold is_legal, spec_legal. apply eq_true_iff_eq. rewrite !existsb_exists. split.
+  - intros [x [Hx E]]. apply MoveFacts.move_eqb_eq in E. subst x. exists m. split; [apply Hmem; exact Hx|apply MoveFacts.move_eqb_eq; reflexivity].
+  - intros [x [Hx E]]. apply MoveFacts.move_eqb_eq in E. subst x. exists m. split; [apply Hmem; exact Hx|apply MoveFacts.move_eqb_eq; reflexivity].
+Qed.
+Print Assumptions is_legal_rules.
